@@ -25,8 +25,7 @@ static lzma_ret lib_init(lzma_stream *s, bool compress)
 	g_inits++;
 	if (verif_nd_bool("init.fails")) {
 		int e = verif_nd_int("init.err");
-		VERIF_ASSUME(e == LZMA_MEM_ERROR || e == LZMA_OPTIONS_ERROR ||
-			     e == LZMA_UNSUPPORTED_CHECK || e == LZMA_PROG_ERROR);
+		VERIF_ASSUME(e != LZMA_OK);   /* any other value */
 		g_init_failed = true;
 		g_lib_failed = true;
 		return (lzma_ret)e;
@@ -64,11 +63,10 @@ lzma_ret lzma_code(lzma_stream *s, lzma_action action)
 	lib_enter(s->next_in, s->avail_in, s->next_out, s->avail_out, g_z.compress);
 	VERIF_ASSERT(action == expect[g_mode], "C15.adapter.flush_mode");
 	lib_progress(s->avail_in, s->avail_out, &c, &p);
-	VERIF_ASSUME(code == LZMA_OK || code == LZMA_STREAM_END ||
-		     code == LZMA_BUF_ERROR || code == LZMA_MEM_ERROR ||
-		     code == LZMA_MEMLIMIT_ERROR || code == LZMA_FORMAT_ERROR ||
-		     code == LZMA_OPTIONS_ERROR || code == LZMA_DATA_ERROR ||
-		     code == LZMA_PROG_ERROR);
+	/* ANY value of (and outside) enum lzma_ret may come back: LZMA_OK,
+	 * LZMA_STREAM_END and LZMA_BUF_ERROR have their documented meaning,
+	 * everything else (LZMA_NO_CHECK .. LZMA_PROG_ERROR incl.
+	 * LZMA_MEMLIMIT_ERROR, LZMA_SEEK_NEEDED, unknown values) is a failure */
 	if (code == LZMA_OK && g_stalled)
 		VERIF_ASSUME(c > 0 || p > 0);
 	if (code == LZMA_BUF_ERROR)
@@ -111,7 +109,7 @@ void harness(void)
 	g_out_size0 = out_size;
 	g_c = g_p = 0;
 	g_lib_calls = 0;
-	g_lib_failed = g_lib_end = g_stalled = false;
+	g_lib_failed = g_lib_end = g_stalled = g_fail_stalled = false;
 	g_inits = g_ends = 0;
 	g_init_failed = false;
 	g_mode = (mode < 0 || mode >= XFRM_STREAM_FLUSH_COUNT) ? 0 : mode;
